@@ -223,6 +223,10 @@ def run(ctx):
              "the function twice per event; one that lacks the guards runs unguarded)", floor=3)
     legacy_grouping_table(ctx, program, "R08.13")
 
+    ctx.rule("R08.14", "new subsystem: the decorators sharing a webhook id are each released at their own stop and the Home Assistant registration lives exactly as long as "
+             "one of them does (either stop order)", floor=2)
+    webhook_release_table(ctx, program, "R08.14")
+
     ctx.rule("R08.2", "every fan-out gives each subscriber a fresh copy of the argument dictionary", floor=4)
     fanout_copy_rule(ctx, program, "R08.2")
 
@@ -348,12 +352,7 @@ def run(ctx):
             ctx.check(ok, "R08.5", uid, f"run context for an occurrence carrying {clabel}",
                       msg=f"{uid}: for an occurrence carrying {clabel} the run's Home Assistant context is created as {[('Context', a, k) for a, k in made]}, specified Context({', '.join(f'{k}={v!r}' for k, v in want.items())}): "
                       f"the logbook cannot link the run to the triggering occurrence", key=f"child context {clabel}", node=f, rel=uid.split("::")[0])
-    for uid, before, after in (("trigger.py::TrigInfo.call_action.do_func_call", "Function.store_hass_context", "ast_ctx.call_func"),
-                               ("decorator.py::FunctionDecoratorManager._call", "Function.store_hass_context", "data.call_ast_ctx.call_func")):
-        f = program.func(uid)
-        names = [call_name(n) for n in body_walk(f) if isinstance(n, ast.Call)]
-        ok = before in names and after in names and names.index(before) < names.index(after)
-        ctx.check(ok, "R08.5", uid, "context stored for the task before the function body runs", msg=f"{uid}: order of {before} / {after} is {names}", key="context stored before call", node=f, rel=uid.split("::")[0])
+    context_owner_rule(ctx, program, "R08.5")
     ctx.rule("R08.6", "shared source listeners: one bus/broker/webhook registration per subscribed type - made when the first subscriber arrives, "
              "released (handle called) when the last one leaves, so re-subscription never doubles the deliveries", floor=24)
     listener_table(ctx, program, "R08.6")
@@ -530,3 +529,71 @@ def legacy_grouping_table(ctx, program, rid):
         elif made != want:
             bad = f"trigger tasks are built with {made}, specified {want}"
         ctx.check(bad is None, rid, uid, f"legacy grouping: {label}", msg=f"legacy trigger_init, {label}: {bad}", key=f"legacy grouping {label}", node=program.func(uid), rel="eval.py")
+
+
+def context_owner_rule(ctx, program, rid):
+    """The run's context is stored by the coroutine that runs in the run's own task (store_hass_context keys it by the current task), before the function body."""
+    for uid, before, after in (("trigger.py::TrigInfo.call_action.do_func_call", "Function.store_hass_context", "ast_ctx.call_func"),
+                               ("decorator.py::FunctionDecoratorManager._call", "Function.store_hass_context", "data.call_ast_ctx.call_func")):
+        f = program.func(uid)
+        names = [call_name(n) for n in body_walk(f) if isinstance(n, ast.Call)]
+        ok = before in names and after in names and names.index(before) < names.index(after)
+        ctx.check(ok, rid, uid, "context stored for the task before the function body runs",
+                  msg=f"{uid} (the coroutine of the run's own task): order of {before} / {after} is {names}: Function.store_hass_context keys the context by the *current* task, so stored "
+                  "anywhere else it belongs to the caller's task (the long-lived trigger task, whoever called stop()) - the run has none, and the entry is never forgotten", key="context stored before call",
+                  node=f, rel=uid.split("::")[0])
+
+
+def webhook_release_table(ctx, program, rid):
+    """Two WebhookTriggerDecorator instances of one id (a trigger function and a task.wait_until, two waits ...): started one after the other, stopped in either order."""
+    cls_uid = "decorators/webhook.py::WebhookTriggerDecorator"
+
+    def register(i, n, a, k, c, o):
+        ids = c.heap.get("$registered", ListV((), "list"))
+        wid = a[3] if len(a) > 3 else k.get("webhook_id")
+        return [(c.hset("$registered", ListV(ids.items + (wid,), "list")), NONE)]
+
+    def unregister(i, n, a, k, c, o):
+        ids = c.heap.get("$registered", ListV((), "list"))
+        wid = a[1] if len(a) > 1 else None
+        items = list(ids.items)
+        if wid in items:
+            items.remove(wid)
+        else:
+            items.append(Const("unregister of an id that is not registered"))
+        return [(c.hset("$registered", ListV(tuple(items), "list")), NONE)]
+
+    base = {"$registered": ListV((), "list")}
+    for st in program.cls(cls_uid).body:
+        tgt = st.target if isinstance(st, ast.AnnAssign) else (st.targets[0] if isinstance(st, ast.Assign) and len(st.targets) == 1 else None)
+        if isinstance(tgt, ast.Name) and isinstance(getattr(st, "value", None), ast.Dict) and not st.value.keys:
+            base[f"WebhookTriggerDecorator.{tgt.id}"] = DictV([])
+    for who in ("first", "second"):
+        base.update({f"dec_{who}.webhook_id": Const("hook1"), f"dec_{who}.local_only": Const(True), f"dec_{who}.methods": ListV((Const("POST"),), "set"),
+                     f"dec_{who}.dm": ObjV("dm_" + who, "DecoratorManager"), f"dec_{who}._registered": Const(False)})
+    summ = {"webhook.async_register": register, "webhook.async_unregister": unregister, "super().start": lambda i, n, a, k, c, o: [(c, NONE)], "super().stop": lambda i, n, a, k, c, o: [(c, NONE)]}
+    for order in (("first", "second"), ("second", "first")):
+        steps = [("start", "first"), ("start", "second")] + [("stop", w) for w in order]
+        heap = dict(base)
+        bad = None
+        for op, who in steps:
+            pol = FlowPolicy(program, may_raise_all=False, cancel=False, summaries=summ, globals_={"WebhookTriggerDecorator": ClassV("WebhookTriggerDecorator")})
+            pol.loop_unroll = 4
+            ex = exits(run_flow(program, f"{cls_uid}.{op}", pol, args={"self": ObjV("dec_" + who, "WebhookTriggerDecorator")}, heap=heap))
+            if len(ex) != 1 or ex[0][0] != "return":
+                bad = f"{op}({who}) ends {[d for k, c, d in ex]}"
+                break
+            heap = dict(ex[0][1].heap)
+            subs = heap.get("WebhookTriggerDecorator._subscribers")
+            cur = [x.oid for x in (subs.get(Const("hook1")).items if isinstance(subs, DictV) and isinstance(subs.get(Const("hook1")), ListV) else ())]
+            reg = [x.v for x in heap["$registered"].items]
+            live = [w for o2, w in steps[:steps.index((op, who)) + 1] if o2 == "start" and ("stop", w) not in steps[:steps.index((op, who)) + 1]]
+            if sorted(cur) != sorted("dec_" + w for w in live):
+                bad = f"after {op}({who}) the id's subscribers are {cur}, specified {['dec_' + w for w in live]}: a decorator that was stopped keeps receiving (and evaluating its condition on) later messages"
+                break
+            if reg != (["hook1"] if live else []):
+                bad = f"after {op}({who}) Home Assistant has the registrations {reg}, specified {['hook1'] if live else []}"
+                break
+        ctx.check(bad is None, rid, f"{cls_uid}.stop", f"two decorators of one webhook id, stopped {order[0]} then {order[1]}",
+                  msg=f"WebhookTriggerDecorator, two decorators of the id 'hook1' started one after the other, stopped {order[0]} then {order[1]}: {bad}", key=f"webhook release {order}",
+                  node=program.func(f"{cls_uid}.stop"), rel="decorators/webhook.py")
